@@ -599,7 +599,7 @@ fn run(line: &str) -> String {
                     match mode {
                         Mode::Count => exec_a(fut),
                         Mode::Token => exec_b(fut, &tokens, &mut rng),
-                        Mode::Sleep => tokio_rt().block_on(async { tokio::time::timeout(Duration::from_secs(60), fut).await.expect("HUNG: executor C timeout") }),
+                        Mode::Sleep => tokio_rt().block_on(async { tokio::time::timeout(Duration::from_secs(1200), fut).await.expect("HUNG: executor C timeout") }),
                     }
                 }};
             }
